@@ -87,7 +87,12 @@ def lxml_read(s):
         e = etree.fromstring(s.encode("utf-8"), etree.XMLParser(resolve_entities=False, no_network=True))
     except (etree.XMLSyntaxError, ValueError):
         return None
-    return lxml_tree(e)
+    try:
+        return lxml_tree(e)
+    except ValueError:
+        # libxml2 only warns about an attribute with an undeclared prefix (<a p:k="v"/>) and keeps the name "p:k";
+        # such a document is not namespace-well-formed: counted as rejected, as the reference reader does
+        return None
 
 
 def sort_attrs(t):
